@@ -293,6 +293,98 @@ pub fn check_extreme(w: u32, h: u32, st: &mut Stats) -> Result<(), String> {
     Ok(())
 }
 
+/// Pages of megabytes (more than 2^16 chunks, heights beyond 2^24): too large for the per-pixel oracles, so only the
+/// layout is probed - length, header, blank data, padding, and a handful of pixels whose bit must be exactly the one
+/// the closed form names (first/last row and column, rows around every power of two and around h-1).
+pub fn check_giant(w: u32, h: u32, st: &mut Stats) -> Result<(), String> {
+    let total = total_len(w, h);
+    let mut page = catch(|| Page::new(PageId(0x3C), w, h)).map_err(|e| format!("Page::new(_, {w}, {h}) panicked: {e}"))?;
+    st.eval();
+    if page.as_bytes().len() != total || page.width() != w || page.height() != h {
+        return Err(format!("Page::new(_, {w}, {h}) has {} bytes, the layout prescribes {total}", page.as_bytes().len()));
+    }
+    let d = data_len(w, h);
+    {
+        let b = page.as_bytes();
+        if b[0] != 0x3C || b[4..d].iter().any(|&x| x != 0) || b[d..].iter().any(|&x| x != 0xFF) {
+            return Err(format!("a new {w}x{h} page is not blank data followed by 0xFF padding"));
+        }
+    }
+    let mut coords: Vec<(u32, u32)> = vec![(0, 0), (w - 1, 0), (0, h - 1), (w - 1, h - 1), (w / 2, h / 2), (1u32.min(w - 1), 0), (0, 1u32.min(h - 1))];
+    for k in 3..=31u32 {
+        for dlt in [0u32, 1] {
+            let v = (1u32 << k).wrapping_add(dlt);
+            if v < h {
+                coords.push((w - 1, v));
+                coords.push((0, v - 1));
+            }
+            if v < w {
+                coords.push((v, h - 1));
+            }
+        }
+    }
+    for dlt in 1..=9u32 {
+        if dlt < h {
+            coords.push((w - 1, h - 1 - dlt));
+            coords.push((0, h - dlt));
+        }
+    }
+    coords.sort();
+    coords.dedup();
+    let blank = page.as_bytes().to_vec();
+    for &(x, y) in &coords {
+        for v in [true, false] {
+            catch(|| page.set_pixel(x, y, v)).map_err(|e| format!("in-bounds set_pixel({x},{y},{v}) on a {w}x{h} page panicked: {e}"))?;
+            st.eval();
+            let got = catch(|| page.get_pixel(x, y)).map_err(|e| format!("in-bounds get_pixel({x},{y}) on a {w}x{h} page panicked: {e}"))?;
+            if got != v {
+                return Err(format!("{w}x{h} page: pixel ({x},{y}) reads {got} after being set to {v}"));
+            }
+            let (bi, bit) = bit_pos(x, y, h);
+            let b = page.as_bytes();
+            if b.len() != total {
+                return Err(format!("{w}x{h} page: set_pixel({x},{y}) changed the byte length to {}", b.len()));
+            }
+            // compare with the blank page: exactly the one bit differs while the pixel is on, nothing when it is off again
+            let exact = if v {
+                bi < total && b[..bi] == blank[..bi] && b[bi + 1..] == blank[bi + 1..] && b[bi] == blank[bi] ^ (1u8 << bit)
+            } else {
+                b == &blank[..]
+            };
+            if !exact {
+                let mut diffs: Vec<(usize, u8)> = vec![];
+                for (k, (p, q)) in b.iter().zip(blank.iter()).enumerate() {
+                    if p != q {
+                        diffs.push((k, p ^ q));
+                        if diffs.len() >= 6 {
+                            break;
+                        }
+                    }
+                }
+                return Err(format!("{w}x{h} page: set_pixel({x},{y},{v}) changed (byte, xor-mask) {diffs:?}; the layout puts the pixel at byte {bi} bit {bit} and nothing else may change"));
+            }
+        }
+    }
+    // the exposed bytes rebuild an equal page; one byte more or less is refused
+    let again = catch(|| Page::from_bytes(w, h, page.as_bytes().to_vec())).map_err(|e| format!("from_bytes({w},{h}) panicked on a page's own bytes: {e}"))?;
+    match again {
+        Ok(p) if p == page => {}
+        Ok(_) => return Err(format!("from_bytes({w},{h}, p.as_bytes()) != p")),
+        Err(e) => return Err(format!("from_bytes({w},{h}) rejects the bytes of Page::new({w},{h}) ({total} bytes): {e}")),
+    }
+    for len in [total - 16, total - 1, total + 1, total + 16] {
+        let buf = vec![0u8; len];
+        if catch(|| Page::from_bytes(w, h, &buf[..]).is_ok()).map_err(|e| format!("from_bytes({w},{h},{len} bytes) panicked: {e}"))? {
+            return Err(format!("from_bytes({w},{h}) accepted {len} bytes although the padded size is {total}"));
+        }
+    }
+    st.class("giant-page");
+    Ok(())
+}
+
+/// sizes for `check_giant`: more than 65535 chunks, heights / widths beyond 2^16, 2^24 (+1: not representable in f32)
+pub const GIANT_SIZES: &[(u32, u32)] = &[(2048, 4096), (2047, 4096), (70_000, 128), (3, 2_800_000), (2, 16_777_217), (1, 33_554_439), (16_777_217, 2), (5, 16_777_225)];
+
 pub fn run(ctx: &Ctx) {
     let (bw, bh) = ctx.tier.pick((32u32, 34u32), (64u32, 48u32));
     par_range(ctx, "box", ((bw + 1) * (bh + 1)) as u64, |i, st| {
@@ -338,6 +430,14 @@ pub fn run(ctx: &Ctx) {
     });
     ctx.part_done("extreme-dimensions", true, json!("widths/heights within 10 of u32::MAX (zero-width or zero-height pages are 16 bytes; others must reject small buffers), no arithmetic may overflow"));
 
+    par_range(ctx, "giant-pages", GIANT_SIZES.len() as u64, |i, st| {
+        let (w, h) = GIANT_SIZES[i as usize];
+        check_giant(w, h, st).map_err(|m| (json!({"w": w, "h": h, "id": 0}), m))?;
+        st.nontrivial_enumerated(1);
+        Ok(())
+    });
+    ctx.part_done("giant-pages", true, json!({"sizes": GIANT_SIZES, "what": "pages of 1-16 MB (more than 65535 chunks, heights and widths beyond 2^16 and 2^24): length, header, padding, ~130 probed pixels each exactly at its closed-form bit with no other byte changed, from_bytes round trip"}));
+
     // all ids on three sizes
     par_range(ctx, "all-ids", 256, |id, st| {
         for (w, h) in [(30u32, 10u32), (90, 7), (3, 17)] {
@@ -355,7 +455,7 @@ pub fn run(ctx: &Ctx) {
     run_generated(
         ctx,
         "edited",
-        ctx.tier.pick(200_000, 3_000_000),
+        ctx.tier.pick(1_000_000, 6_000_000),
         move || {
             (
                 prop_oneof![
@@ -381,6 +481,9 @@ pub fn replay(part: &str, case: &Value) -> Result<(), String> {
     let c: SizeCase = serde_json::from_value(case.clone()).map_err(|e| format!("bad case: {e}"))?;
     if part == "extreme-dimensions" {
         return check_extreme(c.w, c.h, &mut st);
+    }
+    if part == "giant-pages" {
+        return check_giant(c.w, c.h, &mut st);
     }
     check_size(&c, &mut st)
 }
